@@ -775,7 +775,10 @@ def model_cases(draw):
         if k == "set_species":
             return ["set_species", draw(st.sampled_from(species)), float(draw(st.integers(11, 30)))]
         if k == "add_reaction":
-            return ["add_reaction", draw(st.sampled_from(species)), draw(st.sampled_from(species + [""])), draw(gen.logfl(0.1, 3))]
+            # the new reaction consumes a species that no rule assigns (a rule-driven, possibly fractional or negative
+            # count under a consuming mass-action reaction is not a valid stochastic model)
+            free = [s_ for s_ in species if s_ not in {r_["dest"] for r_ in sp.get("rules", [])}] or species
+            return ["add_reaction", draw(st.sampled_from(free)), draw(st.sampled_from(free + [""])), draw(gen.logfl(0.1, 3))]
         if k == "add_rule" and len(species) >= 2:
             tgt = draw(st.sampled_from(species))     # target != source: 'X = X + 1' re-applied at every event explodes
             return ["add_rule", tgt, draw(st.sampled_from([s for s in species if s != tgt]))]
